@@ -2670,8 +2670,10 @@ let feed_arms =
   (((((St Ground), (Npos (XO (XO (XO (XO (XO XH))))))), (Npos (XI (XI (XI (XI
     (XI (XI XH)))))))) :: []), (ARetPrint :: [])) :: ((((((St CsiParam),
     (Npos (XO (XO (XO (XO (XI XH))))))), (Npos (XI (XI (XO (XI (XI
-    XH))))))) :: []), (AParam :: [])) :: ((((((St Escape), (Npos (XI (XI (XO
-    (XI (XI (XO XH)))))))), (Npos (XI (XI (XO (XI (XI (XO XH)))))))) :: []),
+    XH))))))) :: []), (AParam :: [])) :: (((((AnyState, (Npos (XI (XI (XO (XI
+    XH)))))), (Npos (XI (XI (XO (XI XH)))))) :: []), ((ASetState
+    Escape) :: (AClear :: []))) :: ((((((St Escape), (Npos (XI (XI (XO (XI
+    (XI (XO XH)))))))), (Npos (XI (XI (XO (XI (XI (XO XH)))))))) :: []),
     ((ASetState CsiEntry) :: (AClear :: []))) :: ((((((St CsiParam), (Npos
     (XO (XO (XO (XO (XO (XO XH)))))))), (Npos (XO (XI (XI (XI (XI (XI
     XH)))))))) :: []), ((ASetState Ground) :: (ARetCsi :: []))) :: ((((((St
@@ -2769,16 +2771,17 @@ let feed_arms =
     CsiIgnore) :: [])) :: ((((((St CsiEntry), (Npos (XO (XO (XO (XO (XO
     XH))))))), (Npos (XI (XI (XI (XI (XO XH))))))) :: []), ((ASetState
     CsiIntermediate) :: (ACollect :: []))) :: ((((((St EscapeIntermediate),
-    N0), (Npos (XI (XI (XI (XI XH)))))) :: []),
-    (ARetExecute :: [])) :: ((((((St Escape), (Npos (XO (XO (XO (XI (XI (XO
-    XH)))))))), (Npos (XO (XO (XO (XI (XI (XO XH)))))))) :: ((((St Escape),
-    (Npos (XO (XI (XI (XI (XI (XO XH)))))))), (Npos (XO (XI (XI (XI (XI (XO
-    XH)))))))) :: ((((St Escape), (Npos (XI (XI (XI (XI (XI (XO XH)))))))),
-    (Npos (XI (XI (XI (XI (XI (XO XH)))))))) :: []))), ((ASetState
-    SosPmApcString) :: [])) :: (((((AnyState, (Npos (XI (XI (XO (XI XH)))))),
-    (Npos (XI (XI (XO (XI XH)))))) :: []), ((ASetState
-    Escape) :: (AClear :: []))) :: (((((AnyState, (Npos (XO (XO (XO (XI (XI
-    (XO (XO XH))))))))), (Npos (XO (XO (XO (XI (XI (XO (XO
+    N0), (Npos (XI (XI (XI (XO XH)))))) :: ((((St EscapeIntermediate), (Npos
+    (XI (XO (XO (XI XH)))))), (Npos (XI (XO (XO (XI XH)))))) :: ((((St
+    EscapeIntermediate), (Npos (XO (XO (XI (XI XH)))))), (Npos (XI (XI (XI
+    (XI XH)))))) :: []))), (ARetExecute :: [])) :: ((((((St Escape), (Npos
+    (XO (XO (XO (XI (XI (XO XH)))))))), (Npos (XO (XO (XO (XI (XI (XO
+    XH)))))))) :: ((((St Escape), (Npos (XO (XI (XI (XI (XI (XO XH)))))))),
+    (Npos (XO (XI (XI (XI (XI (XO XH)))))))) :: ((((St Escape), (Npos (XI (XI
+    (XI (XI (XI (XO XH)))))))), (Npos (XI (XI (XI (XI (XI (XO
+    XH)))))))) :: []))), ((ASetState
+    SosPmApcString) :: [])) :: (((((AnyState, (Npos (XO (XO (XO (XI (XI (XO
+    (XO XH))))))))), (Npos (XO (XO (XO (XI (XI (XO (XO
     XH))))))))) :: (((AnyState, (Npos (XO (XI (XI (XI (XI (XO (XO
     XH))))))))), (Npos (XO (XI (XI (XI (XI (XO (XO
     XH))))))))) :: (((AnyState, (Npos (XI (XI (XI (XI (XI (XO (XO
@@ -2799,12 +2802,17 @@ let feed_arms =
     DcsParam) :: (AParam :: []))) :: ((((((St DcsIntermediate), (Npos (XO (XO
     (XO (XO (XO XH))))))), (Npos (XI (XI (XI (XI (XO XH))))))) :: []),
     (ACollect :: [])) :: ((((((St CsiIntermediate), N0), (Npos (XI (XI (XI
-    (XI XH)))))) :: []), (ARetExecute :: [])) :: ((((((St DcsEntry), (Npos
-    (XO (XI (XO (XI (XI XH))))))), (Npos (XO (XI (XO (XI (XI
-    XH))))))) :: []), ((ASetState DcsIgnore) :: [])) :: ((((((St
-    DcsIntermediate), (Npos (XO (XO (XO (XO (XI XH))))))), (Npos (XI (XI (XI
-    (XI (XI XH))))))) :: []), ((ASetState DcsIgnore) :: [])) :: ((((((St
-    CsiIgnore), N0), (Npos (XI (XI (XI (XI XH)))))) :: []),
+    (XO XH)))))) :: ((((St CsiIntermediate), (Npos (XI (XO (XO (XI XH)))))),
+    (Npos (XI (XO (XO (XI XH)))))) :: ((((St CsiIntermediate), (Npos (XO (XO
+    (XI (XI XH)))))), (Npos (XI (XI (XI (XI XH)))))) :: []))),
+    (ARetExecute :: [])) :: ((((((St DcsEntry), (Npos (XO (XI (XO (XI (XI
+    XH))))))), (Npos (XO (XI (XO (XI (XI XH))))))) :: []), ((ASetState
+    DcsIgnore) :: [])) :: ((((((St DcsIntermediate), (Npos (XO (XO (XO (XO
+    (XI XH))))))), (Npos (XI (XI (XI (XI (XI XH))))))) :: []), ((ASetState
+    DcsIgnore) :: [])) :: ((((((St CsiIgnore), N0), (Npos (XI (XI (XI (XO
+    XH)))))) :: ((((St CsiIgnore), (Npos (XI (XO (XO (XI XH)))))), (Npos (XI
+    (XO (XO (XI XH)))))) :: ((((St CsiIgnore), (Npos (XO (XO (XI (XI
+    XH)))))), (Npos (XI (XI (XI (XI XH)))))) :: []))),
     (ARetExecute :: [])) :: ((((((St DcsParam), (Npos (XO (XO (XO (XO (XO
     XH))))))), (Npos (XI (XI (XI (XI (XO XH))))))) :: []), ((ASetState
     DcsIntermediate) :: (ACollect :: []))) :: ((((((St CsiEntry), (Npos (XO
